@@ -13,7 +13,7 @@ def check(ctx, rep):
         "activation of the run. R10.3 failure mapping and identity (critical mapping over path facts; the "
         "wrapper never replaces an exception; is_done/result tables for the nestable class). R10.4 the parent "
         "aborts on the failure of a critical member - nested scheduler or plain job alike - exactly when a done "
-        "task raised and its job is critical (fold-classified abort flag). R10.8 the nestable class forwards every configuration parameter unchanged to its two parents. R10.9 (= R01.7) the nestable class hands on every constructor parameter. R10.10 (= R20.6). R10.11 (= R14.4).")
+        "task raised and its job is critical (fold-classified abort flag). R10.8 the nestable class forwards every configuration parameter unchanged to its two parents. R10.9 (= R01.7) the nestable class hands on every constructor parameter. R10.10 (= R20.6). R10.11 (= R14.4). R10.12 (= R04.6) run() is transparent: what the tree raises (the exception of a critical job bubbling up through critical schedulers, TimeoutError included) leaves run() as it is, as it does for the flattened graph.")
     rep.declined = ["'every job runs at the same times as in the flattened graph' (timing)"]
     rep.trusted = ["T8 C3 MRO"]
     nested.mro_table(ctx, rep, "R10.1")
@@ -33,3 +33,4 @@ def check(ctx, rep):
     predicates.constructor_forwarding(ctx, rep, "R10.9")
     common.no_shared_class_state(ctx, rep, "R10.10")
     shutrules.cancellation_propagates(ctx, rep, "R10.11")
+    common.sync_wrapper(ctx, rep, "R10.12", "run")
